@@ -120,7 +120,7 @@ fn run<T: Sc>(case: &FamCase) -> Check {
 }
 
 pub fn c05_cfg() -> FamCfg {
-    FamCfg { max_s: 4, min_n: 30, max_n: 200, noise_lo: 1e-6, noise_hi: 1e-3, noiseless_16: 6, start_rel: 0.03, allow_f32: true, weights: true, calibrated_weights: false }
+    FamCfg { max_s: 4, min_n: 30, max_n: 200, noise_lo: 1e-6, noise_hi: 1e-3, noiseless_16: 6, start_rel: 0.03, allow_f32: true, weights: true, calibrated_weights: false, extra_families: false, wide_weights: false, max_decays: 3 }
 }
 
 impl Property for C05 {
